@@ -16,11 +16,15 @@
    the parts' own texts do not disturb the clause structure, is not a theorem: it is evaluated on every
    generated case by the clause-level reader of Pg/Stmt.v (a hand-written formalisation of gram.y) against
    (A) the intended clause tree of abstract statements composed through the API and (B) the clause tree built
-   from the builder records.  "Single-valued options reflect the last call" and "aliases stay attached" are
-   properties of the Go API functions; they are checked by (A) only. *)
+   from the builder records.
+   C01_api_*     laws of the functional model of the builder methods (Model/Api.v, compared call by call with the
+                 implementation in the api mode of the harness): WHERE / HAVING conditions accumulate in call
+                 order and change nothing else of the statement; of two calls of a single-valued option the last
+                 wins; independent options commute; an alias goes to the FROM item added last.  The remaining
+                 methods are covered by the call-by-call comparison and by (A). *)
 From Coq Require Import String List ZArith Bool.
 From QRB Require Import Base.Bytes Model.W Model.Values Model.Compile Pg.Lexer Pg.Expr Pg.Stmt Model.XExp Model.XExpFacts
-  Model.Frame Model.C02Eval Model.C01Eval.
+  Model.Frame Model.C02Eval Model.C01Eval Model.Api Model.ApiFacts.
 Import ListNotations.
 Local Open Scope string_scope.
 
@@ -34,6 +38,40 @@ Section C01.
   Theorem C01_leaves :
     forall o (e : exp V) s, run validI validT o (compile_top e) s = run_list validI validT o (wflat (compile_top e)) s.
   Proof. intros o e. exact (run_wflat V validI validT o (compile_top e)). Qed.
+
+  Theorem C01_api_where_accumulates :
+    forall w c p (es : list (exp V)),
+      fold_left (fun r e => call V "Where" [AExp e] r) es (Some (ESelect w c p))
+      = Some (ESelect w c (p_set_where V p (p_where p ++ es))).
+  Proof. exact (where_accumulates V). Qed.
+
+  Theorem C01_api_having_accumulates :
+    forall w c p (es : list (exp V)),
+      fold_left (fun r e => call V "Having" [AExp e] r) es (Some (ESelect w c p))
+      = Some (ESelect w c (p_set_having V p (p_having p ++ es))).
+  Proof. exact (having_accumulates V). Qed.
+
+  Theorem C01_api_limit_last_wins :
+    forall w c p (a b : exp V),
+      call V "Limit" [AExp b] (call V "Limit" [AExp a] (Some (ESelect w c p))) = call V "Limit" [AExp b] (Some (ESelect w c p)).
+  Proof. exact (limit_last_wins V). Qed.
+
+  Theorem C01_api_offset_last_wins :
+    forall w c p (a b : exp V),
+      call V "Offset" [AExp b] (call V "Offset" [AExp a] (Some (ESelect w c p))) = call V "Offset" [AExp b] (Some (ESelect w c p)).
+  Proof. exact (offset_last_wins V). Qed.
+
+  Theorem C01_api_limit_where_commute :
+    forall w c p (a e : exp V),
+      call V "Limit" [AExp a] (call V "Where" [AExp e] (Some (ESelect w c p)))
+      = call V "Where" [AExp e] (call V "Limit" [AExp a] (Some (ESelect w c p))).
+  Proof. exact (limit_where_commute V). Qed.
+
+  Theorem C01_api_alias_goes_to_last_item :
+    forall w c p (f : exp V) a,
+      call V "FromSelectBuilder.As" [AStr a] (call V "From" [AExp f] (Some (ESelect w c p)))
+      = Some (ESelect w c (p_set_from V p (p_from p ++ [mkFromItem false false f a []]))).
+  Proof. exact (from_as_last V). Qed.
 End C01.
 
 (* non-vacuity: the slot list of a statement with CTE, join, conditions, grouping, set operation and tail *)
@@ -85,6 +123,12 @@ Proof. vm_compute. reflexivity. Qed.
 
 Print Assumptions C01_frame.
 Print Assumptions C01_leaves.
+Print Assumptions C01_api_where_accumulates.
+Print Assumptions C01_api_having_accumulates.
+Print Assumptions C01_api_limit_last_wins.
+Print Assumptions C01_api_offset_last_wins.
+Print Assumptions C01_api_limit_where_commute.
+Print Assumptions C01_api_alias_goes_to_last_item.
 Print Assumptions C01_parts_of_a_statement.
 Print Assumptions C01_findings.
 Print Assumptions C01_reads_back.
